@@ -628,3 +628,31 @@ def gen_mem(rng, n, tag='y'):
 GEN['mem'] = gen_mem
 QUICK['mem'] = 150
 THOROUGH['mem'] = 1500
+
+
+# ------------------------------------------------------------------ HashSet compat (C01)
+def gen_hset(rng, n, tag='w'):
+    out = []
+    for c in range(n):
+        u = rng.choice([4, 8, 16])
+        L = ['new 0', 'new 1']
+        live = {0, 1}
+        for _ in range(rng.randrange(3, 30)):
+            i = rng.choice([0, 0, 1, 2])
+            if i not in live:
+                L.append('clone %d %d' % (rng.choice([0, 1]), i)); live.add(i); L.append('obs %d' % i); continue
+            r = rng.random()
+            if r < 0.6:
+                L.append('ins %d %d' % (i, rng.randrange(u))); L.append('obs %d' % i)
+            elif r < 0.8:
+                j = rng.choice([a for a in live if a != i] or [i])
+                L.append('union %d %d' % (i, j)); L.append('obs %d' % i)
+            elif r < 0.9:
+                L.append('clear %d' % i); L.append('obs %d' % i)
+            else:
+                L.append('q %d %d' % (i, rng.randrange(1 << 64)))
+        out.append(case('%s%d' % (tag, c), 'hset', {'u': u}, L))
+    return out
+GEN['hset'] = gen_hset
+QUICK['hset'] = 200
+THOROUGH['hset'] = 5000
